@@ -86,6 +86,8 @@ def finish(d, res, wt):
     sh(["rm", "-rf", wt])
     with open(os.path.join(d, "result.json"), "w") as f:
         json.dump(res, f, indent=1)
+    # the fact files under lean/GoderiveModel/Generated were rewritten for the modified tree: put the committed ones back
+    sh(["git", "-C", VERIF, "checkout", "--", "lean/GoderiveModel/Generated"])
     # restore the evidence files the run overwrote? No: evidence is rewritten by the next unchanged-tree run.
     return 0
 
